@@ -642,6 +642,7 @@ pub fn generate(prop: &str, family: &str, seed: u64) -> RunDesc {
         "dir-t16" => crate::dir::t16(prop, seed),
         "dir-t17" => crate::dir::t17(prop, seed),
         "dir-t18" => crate::dir::t18(prop, seed),
+        "dir-t19" => crate::dir::t19(prop, seed),
         "dir-w" => crate::dir::w(prop, seed),
         "dir-c" => crate::dir::c(prop, seed),
         "client" => crate::fam_client::gen(prop, seed),
